@@ -46,6 +46,9 @@ def run_property(prop, tier, seed, configs=None, repo=None, selftest=True):
             "bodies": {c: prog.raw[c]["n_bodies"] for c in prog.raw},
             "calls": sum(len(f.calls) for f in prog.fns.values()),
         }
+        if os.environ.get("RPX_FACTS_EPHEMERAL"):
+            import shutil
+            shutil.rmtree(fdir, ignore_errors=True)
         try:
             mod.run(chk, prog)
         except AnchorMissing as e:
